@@ -18,8 +18,11 @@
 (*          really run (perl) on the rule's prerequisites, CONTCAR = the state's *)
 (*          POSCAR; positions of input and output on the super grid, the output  *)
 (*          read back with POSCAR_occ                                           *)
-(*   makemissing   "No rule to make target" complaints of a dry run of make     *)
-(* Output: <<"FAIL", case, "clause">> / "clause@s<j>" / "clause@t<j>".           *)
+(*   makerc, makemissing   a dry run of make and its "No rule to make target"    *)
+(* Output: <<"FAIL", case, "clause">> (archive), "clause@s<j>" (state j),        *)
+(* "clause@t<j>i" / "clause@t<j>f" (initial / final endpoint of transition j).   *)
+(* NOTE: TLC wraps printed tuples longer than 80 characters, and a wrapped       *)
+(* line is not read back: clause names stay below 52 characters.                *)
 EXTENDS SetupW, Archive, Json, IOUtils
 
 Cases == JsonDeserialize(IOEnv.CASE_FILE)
@@ -55,7 +58,7 @@ StateClauses(c, j) ==
 \* endpoint `which` ("init" / "final") of transition j: the given supercell ep, the recorded entry e
 EndpointClauses(c, j, which, e, ep) ==
   LET t == c.trans[j]
-      tag(n) == n \o "_" \o which \o "@t" \o ToString(j)
+      tag(n) == n \o "@t" \o ToString(j) \o (IF which = "init" THEN "i" ELSE "f")
       has == HasDir(c, t.tag)
       dir == DirOf(c, t.tag)
       mapped == ~e.none /\ e.st \in DOMAIN c.states
@@ -71,13 +74,12 @@ EndpointClauses(c, j, which, e, ep) ==
       run == RunOf(c, target)
   IN <<
     <<tag("endpoint_file_reads_back_to_the_given_supercell"), has => ReadsBackTo(c, stored, ep)>>,
-    <<tag("unrelaxed_endpoint_is_stored_ready_and_a_mapped_one_is_not"),
-        has => (target \in Files(c)) = e.none>>,
-    <<tag("mapped_endpoint_has_a_transformation_file_naming_the_relaxed_state"),
+    <<tag("only_unrelaxed_endpoints_are_stored_ready_made"), has => (target \in Files(c)) = e.none>>,
+    <<tag("transformation_file_names_the_relaxed_state"),
         (has /\ mapped) => (wired /\ tfpath \in Files(c) /\ tf.relax = relax)>>,
-    <<tag("makefile_rule_builds_the_endpoint_from_the_transformation_and_the_relaxed_state"),
+    <<tag("rule_builds_endpoint_from_trans_file_and_CONTCAR"),
         wired => HasRule(c, target, <<tfpath, Path(relax, "CONTCAR")>>)>>,
-    <<tag("transformation_file_maps_the_relaxed_state_onto_the_endpoint"),
+    <<tag("trans_file_maps_relaxed_state_onto_endpoint"),
         wired => /\ Len(tf.map) = Len(FlattenSeq(ep.order))
                  /\ MapInRange(tf, Presentation(c, st))
                  /\ Counts(st) = Counts(ep)
@@ -101,15 +103,15 @@ TransClauses(c, j) ==
 
 ArchiveClauses(c) ==
   <<
-    <<"archive_members_are_unique", MembersUnique(c)>>,
-    <<"tag_map_is_a_bijection_onto_state_and_transition_directories", TagBijection(c, StateTags(c), TransTags(c))>>,
+    <<"archive_members_are_unique", MembersUnique(c) /\ c.outside = 0>>,
+    <<"tag_map_is_a_bijection_onto_the_directories", TagBijection(c, StateTags(c), TransTags(c))>>,
     <<"reference_POSCAR_reads_back_to_the_given_supercell", c.hasref => ReadsBackTo(c, "POSCAR", c.ref)>>,
-    <<"every_makefile_dependency_exists_or_will_be_produced", Len(c.rules) > 0 /\ DepsResolvable(c)>>,
-    <<"every_transition_directory_has_a_rule_for_its_first_image",
+    <<"every_makefile_dependency_exists_or_is_produced", Len(c.rules) > 0 /\ DepsResolvable(c)>>,
+    <<"first_image_rule_exists_for_every_transition",
         \A j \in DOMAIN c.trans : HasDir(c, c.trans[j].tag) =>
            LET d == DirOf(c, c.trans[j].tag) IN
            HasRule(c, Path(d, "01/POSCAR"), <<Path(d, "POSCAR.init"), Path(d, "POSCAR.final")>>)>>,
-    <<"make_dry_run_finds_every_dependency", c.makerc = 0 /\ Len(c.makemissing) = 0>>,
+    <<"make_dry_run_finds_every_dependency", c.makeran => (c.makerc = 0 /\ Len(c.makemissing) = 0)>>,
     <<"every_transformation_rule_was_exercised",
         \A n \in DOMAIN c.transfiles : \E m \in DOMAIN c.runs : c.runs[m].trans = c.transfiles[n].path>>
   >>
